@@ -97,7 +97,9 @@ class OptSim(Sim):
     PROBES = ["step_before_any_backward", "two_backwards_per_step", "step_without_zero_grad", "frozen_param_with_weight_decay",
               "param_outside_optimizer", "nesterov", "dampening", "maximize", "zero_d_param", "f32_param", "two_optimizers_overlap",
               "illegal_hyperparams_refused", "param_without_grad_skipped", "backward_fault_then_recovery",
-              "variant_pruned", "momentum_plain", "adam", "adamw", "sgd", "optimizer_recreated", "requires_grad_toggled_mid_run"]
+              "variant_pruned", "momentum_plain", "adam", "adamw", "sgd", "optimizer_recreated", "requires_grad_toggled_mid_run",
+              "tied_parameters_share_storage", "tied_parameters_both_updated",
+              "interrupted_backward_retried_on_same_graph", "accumulated_gradient_checked"]
     RULE = ("one run = parameters + 1-2 optimizers with swarm hyper-parameters and a seeded interleaving of backward/zero_grad/step events; "
             "distinct = optimizer kinds x non-default hyper-parameter set x event-kind sequence; non-trivial = at least two steps compared")
     ASSUMPTIONS = ["the gradient fed to the model at each step is the one the system accumulated (C04 decides accumulation)",
@@ -122,6 +124,12 @@ class OptSim(Sim):
         st.since_zero = {}        # param -> number of backward calls since last reset
         st.stepped_since_zero = {}
         st.setup = 0
+        st.root = {}              # tied parameter id -> (id of the parameter whose storage it views, how)
+        st.ledger = {}            # param -> analytic sum of the gradients of the backward calls since its last reset (None = none yet)
+        st.ledger_abs = {}
+        st.ledger_unknown = set() # flag toggles make it unclear which reset reached the parameter: unknown until a Tensor.zero_()
+        st.retry = None           # the graph of a backward that was aborted by a fault (for the retry on the SAME graph)
+        st.pending = []
         return st
 
     # ------------------------------------------------------------------ generation
@@ -138,11 +146,17 @@ class OptSim(Sim):
 
     def gen(self, rng, st):
         kn = st.knobs
+        if st.pending:
+            return st.pending.pop(0)
         if any(not np.isfinite(t.data).all() or np.abs(t.data).max() > 1e3 for t in st.P.values() if t.data.size):
             return None            # diverged (e.g. maximize on a cubic loss): end the run before values overflow
         if len(st.P) < kn["n_params"]:
             shape = rng.choice([(), (1,), (3,), (2, 3), (2, 2)]) if rng.random() < 0.998 else (rng.choice([257, 300]), 256)     # rarely a LARGE one (size-dependent paths)
             dt = np.float32 if rng.random() < 0.35 else np.float64
+            cands = [i for i in sorted(st.P) if st.P[i].data.ndim >= 1 and st.P[i].data.size <= 64 and i not in st.root]
+            if cands and rng.random() < 0.12:
+                # tied weights: a second parameter whose storage is a view of an earlier one (decoder weight = encoder weight transposed)
+                return {"k": "param_tied", "id": len(st.P), "of": rng.choice(cands), "how": rng.choice(["T", "same", "rev"]), "rg": rng.random() < 0.9}
             return {"k": "param", "id": len(st.P), "data": enc(small_values(rng, shape, dt, -2, 2, avoid_zero=True)),
                     "rg": rng.random() < 0.8, "wrap": rng.random() < 0.5}
         n_opts = 2 if kn["two_opts"] else 1
@@ -193,6 +207,11 @@ class OptSim(Sim):
             ev["g"] = enc(small_values(rng, st.P[terms[0]["p"]].data.shape, np.float64, -2, 2))
         if kn["faulty"] and rng.random() < 0.2:
             ev["fault"] = {"kind": rng.choice(["alloc", "interrupt", "exit"]), "at": rng.randint(1, 6)}
+            if rng.random() < 0.4:
+                ev["fault"].update(seam="line", at=rng.randint(1, 400))
+            if rng.random() < 0.6:
+                # the documented recovery: reset the gradients, then backward again on the SAME graph (no new forward pass)
+                st.pending = [{"k": "zero", "via": "tensor", "ids": [t["p"] for t in ev["terms"]]}, {"k": "backward_retry"}]
         return ev
 
     # ------------------------------------------------------------------ events
@@ -209,10 +228,40 @@ class OptSim(Sim):
         st.pmeta[ev["id"]] = {"rg": bool(ev["rg"]), "wrap": bool(ev["wrap"])}
         st.since_zero[ev["id"]] = 0
         st.stepped_since_zero[ev["id"]] = False
+        st.ledger[ev["id"]] = None
+        st.ledger_abs[ev["id"]] = 0.0
         if t.data.ndim == 0:
             st.probes["zero_d_param"] += 1
         if t.data.dtype == np.float32:
             st.probes["f32_param"] += 1
+
+    def _ev_param_tied(self, st, ev):
+        SG = st.SG
+        src = st.P.get(ev["of"])
+        if src is None or src.data.ndim < 1 or ev["of"] in st.root:
+            st.skipped += 1
+            return
+        view = self._view(src.data, ev["how"])
+        t = SG.Tensor(view, requires_grad=ev["rg"])
+        if not np.shares_memory(t.data, src.data):
+            st.notes["tensor_constructor_copied_the_view"] += 1
+        else:
+            st.root[ev["id"]] = (ev["of"], ev["how"])
+            st.probes["tied_parameters_share_storage"] += 1
+        st.P[ev["id"]] = t
+        st.pmeta[ev["id"]] = {"rg": bool(ev["rg"]), "wrap": False}
+        st.since_zero[ev["id"]] = 0
+        st.stepped_since_zero[ev["id"]] = False
+        st.ledger[ev["id"]] = None
+        st.ledger_abs[ev["id"]] = 0.0
+
+    @staticmethod
+    def _view(a, how):
+        return a.T if how == "T" else a[::-1] if how == "rev" else a[...]
+
+    def _group(self, st, i):
+        r = st.root.get(i, (i, None))[0]
+        return [j for j in st.P if j == r or st.root.get(j, (None,))[0] == r]
 
     def _ev_module(self, st, ev):
         SG = st.SG
@@ -278,6 +327,7 @@ class OptSim(Sim):
             return
         st.must("C08.flag_setter_raises", f"requires_grad = {ev['v']} on a float leaf", setattr, p, "requires_grad", ev["v"])
         st.probes["requires_grad_toggled_mid_run"] += 1
+        st.ledger_unknown.add(ev["p"])
 
     def _ev_opt_recreate(self, st, ev):
         o = st.opts.get(ev["oid"])
@@ -311,6 +361,10 @@ class OptSim(Sim):
             st.unknown_grad.discard(i)
             st.since_zero[i] = 0
             st.stepped_since_zero[i] = False
+            st.ledger[i] = None
+            st.ledger_abs[i] = 0.0
+            if via == "tensor":
+                st.ledger_unknown.discard(i)
 
     def _ev_backward(self, st, ev):
         SG = st.SG
@@ -320,8 +374,20 @@ class OptSim(Sim):
             return
         fault = ev.get("fault")
         touched = [t["p"] for t in terms]
-        if fault:
-            SEAM.arm(fault["kind"], fault["at"])
+        # analytic gradients of the polynomial loss (what this call contributes to each parameter)
+        contrib = {}
+        for t in (terms[:1] if ev["style"] == "g" else terms):
+            p = st.P[t["p"]]
+            if not p.requires_grad:
+                continue
+            x = np.asarray(p.data, dtype=np.float64)
+            c = np.asarray(dec(t["c"]).astype(p.data.dtype), dtype=np.float64)
+            d = c if t["form"] == "lin" else 2 * x * c if t["form"] == "sq" else 3 * x * x * c
+            if ev["style"] == "g":
+                d = d * np.asarray(dec(ev["g"]).astype(p.data.dtype), dtype=np.float64).reshape(d.shape)
+            contrib[t["p"]] = d
+        st.retry = None
+        total = gt = None
         try:
             with quiet():
                 total = None
@@ -335,27 +401,46 @@ class OptSim(Sim):
                     s = e.sum()
                     total = s if total is None else total + s
                 if not total.requires_grad:
-                    SEAM.disarm()
                     return
-                if ev["style"] == "g":
-                    total.backward(SG.Tensor(dec(ev["g"]).astype(total.data.dtype).reshape(total.data.shape)))
-                else:
-                    total.backward()
+                gt = SG.Tensor(dec(ev["g"]).astype(total.data.dtype).reshape(total.data.shape)) if ev["style"] == "g" else None
+                with SEAM.armed(fault):
+                    total.backward(gt) if gt is not None else total.backward()
         except SimFault:
             SEAM.disarm()
-            st.faults["backward_" + fault["kind"]] += 1
+            st.faults[f"backward_{fault.get('seam', 'kernel')}_{fault['kind']}"] += 1
             st.unknown_grad.update(touched)
             st.probes["backward_fault_then_recovery"] += 1
+            st.retry = (total, gt, touched, contrib)
             return
         except Exception as e:
             SEAM.disarm()
             st.fail("C08.backward_raises", f"backward of a polynomial loss over the parameters raised {type(e).__name__}: {e}")
         SEAM.disarm()
+        self._count(st, touched, contrib)
+
+    def _count(self, st, touched, contrib):
         for i in touched:
             if st.P[i].requires_grad:
                 st.since_zero[i] += 1
                 if st.since_zero[i] >= 2:
                     st.probes["two_backwards_per_step"] += 1
+        for i, d in contrib.items():
+            st.ledger[i] = d.copy() if st.ledger[i] is None else st.ledger[i] + d
+            st.ledger_abs[i] += float(np.abs(d).max()) if d.size else 0.0
+
+    def _ev_backward_retry(self, st, ev):
+        if st.retry is None:
+            st.skipped += 1
+            return
+        total, gt, touched, contrib = st.retry
+        st.retry = None
+        try:
+            with quiet():
+                total.backward(gt) if gt is not None else total.backward()
+        except Exception as e:
+            st.fail("C08.backward_raises", f"backward on the graph of an earlier, interrupted backward raised {type(e).__name__}: {e}")
+        st.probes["interrupted_backward_retried_on_same_graph"] += 1
+        self._count(st, touched, contrib)
 
     def _ev_step(self, st, ev):
         o = st.opts.get(ev["oid"])
@@ -371,6 +456,11 @@ class OptSim(Sim):
             with quiet():
                 g = p.grad
             grads[i] = None if g is None else np.array(g.data, dtype=np.float64, copy=True)
+        pre_root = {}
+        for i in ids:
+            r = st.root.get(i, (i, None))[0]
+            if r not in pre_root:
+                pre_root[r] = np.array(st.P[r].data, dtype=np.float64, copy=True)
         outside = {i: (st.P[i].data.tobytes(), st.P[i].data.dtype, st.P[i].data.shape) for i in st.P if i not in ids}
         frozen = {i: st.P[i].data.tobytes() for i in ids if not st.P[i].requires_grad}
         meta = {i: (st.P[i].data.dtype, st.P[i].data.shape) for i in ids}
@@ -382,6 +472,24 @@ class OptSim(Sim):
             judge = False
         else:
             judge = True
+        if judge:
+            for i in ids:
+                p = st.P[i]
+                if not p.requires_grad or i in st.ledger_unknown or i in st.unknown_grad:
+                    continue
+                want = st.ledger[i]
+                got = grads[i]
+                if want is None:
+                    if got is not None and np.any(got):
+                        st.fail("C08.gradient_seen_by_step", f"parameter {i} holds a non-zero gradient although no backward reached it since its last reset", param=i)
+                    continue
+                # (0-d intermediates are single precision on this tree whatever the operand dtype: a dtype matter, C10, not decided here)
+                tol = (3e-5 if (p.data.dtype == np.float32 or p.data.ndim == 0) else 1e-11) * (st.ledger_abs[i] + 1e-30)
+                if got is None or got.shape != want.shape or not np.all(np.abs(got - want) <= tol):
+                    st.fail("C08.gradient_seen_by_step", f"the gradient parameter {i} holds when step() is called differs from the sum of the gradients of the "
+                            f"{st.since_zero[i]} backward call(s) since its last reset (max abs err "
+                            f"{'n/a' if got is None or got.shape != want.shape else float(np.max(np.abs(got - want))):.3g}, tol {tol:.3g})", param=i)
+                st.probes["accumulated_gradient_checked"] += 1
         if all(grads[i] is None for i in ids):
             st.probes["step_before_any_backward"] += 1
         try:
@@ -395,15 +503,19 @@ class OptSim(Sim):
                     kind=o["kind"], hp=o["hp"])
         model.t += 1
         o["steps"] += 1
+        moving = {i for i in ids if i not in frozen and grads[i] is not None}
+        shared_moves = lambda i: any(j != i and j in moving for j in self._group(st, i))     # its storage is (also) another, updated, parameter's
         # isolation
         for i, (b, dt, sh) in outside.items():
             p = st.P[i]
+            if shared_moves(i):
+                continue
             if p.data.tobytes() != b or p.data.dtype != dt or p.data.shape != sh:
                 st.fail("C08.touched_foreign_parameter", f"step() changed parameter {i}, which was not given to this optimizer", param=i)
         for i, b in frozen.items():
             if o["hp"]["weight_decay"]:
                 st.probes["frozen_param_with_weight_decay"] += 1
-            if st.P[i].data.tobytes() != b:
+            if st.P[i].data.tobytes() != b and not shared_moves(i):
                 st.fail("C08.frozen_parameter_moved", f"step() changed frozen parameter {i} (requires_grad=False; weight_decay={o['hp']['weight_decay']})",
                         param=i, hp=o["hp"])
         for i in ids:
@@ -422,16 +534,30 @@ class OptSim(Sim):
             if not var.alive:
                 continue
             ok = True
+            # parameters are updated one after the other, in place: a parameter whose storage is a view of an earlier one starts from
+            # the already updated values (tied weights receive both updates)
+            vals = {r: a.copy() for r, a in pre_root.items()}
+            for n, i in enumerate(ids):
+                if i in frozen or grads[i] is None:
+                    continue
+                r, how = st.root.get(i, (i, None))
+                view = vals[r] if how is None else self._view(vals[r], how)
+                theta = np.array(view, copy=True)
+                new = model.predict(var, n, theta, grads[i], commit=True)
+                view[...] = new
             for n, i in enumerate(ids):
                 p = st.P[i]
                 if i in frozen:
                     continue
                 if grads[i] is None:
                     st.probes["param_without_grad_skipped"] += 1
-                    if p.data.tobytes() != pre[i].astype(p.data.dtype).tobytes():
+                    if p.data.tobytes() != pre[i].astype(p.data.dtype).tobytes() and not shared_moves(i):
                         st.fail("C08.param_without_grad_moved", f"step() changed parameter {i}, which has no gradient", param=i)
                     continue
-                exp = model.predict(var, n, pre[i], grads[i], commit=True)
+                r, how = st.root.get(i, (i, None))
+                exp = np.array(vals[r] if how is None else self._view(vals[r], how), copy=True)
+                if len([j for j in self._group(st, i) if j in moving]) >= 2:
+                    st.probes["tied_parameters_both_updated"] += 1
                 obs = np.asarray(p.data, dtype=np.float64)
                 eps = 1.2e-7 if p.data.dtype == np.float32 else 2.3e-16
                 k = 48 if p.data.dtype == np.float32 else 4096
